@@ -532,6 +532,20 @@ func Run(cfg fw.Config, rec *fw.Rec) {
 				rec.Bucket("negative_unknown_pattern_syntax_without_patterns")
 			}
 		}
+		// ... or no nodes at all (a document that is only a header)
+		for _, doc := range []string{`{"name":"header","patternSyntax":"no-such-syntax"}`, `{"patternSyntax":"bogus","nodes":null}`} {
+			var s core.Spec
+			if json.Unmarshal([]byte(doc), &s) != nil {
+				continue
+			}
+			err := s.Compile(context.Background(), nil, true)
+			rec.Eval(1)
+			if err == nil {
+				rec.Violation("C13:accepted-at-compile:unknown_pattern_syntax_without_nodes", "the spec "+doc+" (an unknown pattern syntax, no nodes) compiles without error", doc)
+			} else {
+				rec.Bucket("negative_unknown_pattern_syntax_without_nodes")
+			}
+		}
 		// a compilation that fails part way must leave the spec as it was: once the bad
 		// pattern is repaired it compiles to the same machine as a spec that was never broken
 		if i%4 == 0 {
